@@ -483,6 +483,13 @@ pub fn replay(config: &Value, ops: &[String]) -> Vec<String> {
         let wv = parts[2] == "true";
         return with_capacity!(cfg.fs, replay_long, cfg, polls, wv);
     }
+    if let Some(lp) = ops.iter().find(|o| o.starts_with("manypresses:")) {
+        let parts: Vec<&str> = lp.split(':').collect();
+        let cfg = RibCfg { fs: config["fs"].as_u64().unwrap_or(1000) as u32, softpot: config["softpot"].as_f64().unwrap_or(20e3) as f32, dropper: config["dropper"].as_f64().unwrap_or(820.0) as f32, pullup: config["pullup"].as_f64().unwrap_or(1e6) as f32 };
+        let cycles: usize = parts[1].parse().unwrap();
+        let wv = parts[2] == "true";
+        return with_capacity!(cfg.fs, replay_many, cfg, cycles, wv);
+    }
     let ops: Vec<String> = ops.iter().filter(|o| !o.starts_with('#')).cloned().collect();
     let ops = &ops[..];
     let cfg = RibCfg { fs: config["fs"].as_u64().unwrap_or(1000) as u32, softpot: config["softpot"].as_f64().unwrap_or(20e3) as f32, dropper: config["dropper"].as_f64().unwrap_or(820.0) as f32, pullup: config["pullup"].as_f64().unwrap_or(1e6) as f32 };
@@ -717,6 +724,95 @@ fn value_scripts_c<const C: usize>(ctx: &Ctx, rep: &mut Report, cfg: RibCfg, lat
     rep.states += polls;
     rep.transitions += polls;
     rep.subruns.push(json!({"engine": "E2-sweep", "what": "constant presses at the ends of the range and slow slides", "fs": cfg.fs, "capacity": C, "press_needs": l, "sequences": n, "value_judged_every": lattice}));
+}
+
+fn many_cycle_ops(l: usize, b: f32, n: usize) -> Vec<ROp> {
+    let x = b * (0.2 + 0.6 * ((n * 37 % 101) as f32 / 101.0));
+    let y = b * (0.8 - 0.6 * ((n * 53 % 97) as f32 / 97.0));
+    let mut ops: Vec<ROp> = Vec::new();
+    for i in 0..(l + 1) {
+        ops.push(ROp::Poll(if i % 2 == 0 { x } else { y }));
+    }
+    ops.extend([ROp::JustPressed, ROp::JustReleased, ROp::Poll(1.0), ROp::JustReleased, ROp::JustPressed]);
+    for _ in 0..(l - 1) {
+        ops.push(ROp::Poll(y));
+    }
+    ops.extend([ROp::Poll(1.0), ROp::JustPressed, ROp::JustReleased]);
+    ops
+}
+
+fn replay_many<const C: usize>(cfg: RibCfg, cycles: usize, with_value: bool) -> Vec<String> {
+    let mut m = match RibM::<C>::new(cfg, vec![], with_value, false, u32::MAX) {
+        Ok(m) => m,
+        Err(e) => return vec![e],
+    };
+    m.edge_polls = true;
+    let (l, b) = (m.m.l, cfg.boundary());
+    let mut lines = Vec::new();
+    for n in 0..cycles {
+        for op in many_cycle_ops(l, b, n) {
+            let mut out = StepOut::new();
+            let r = std::panic::catch_unwind(std::panic::AssertUnwindSafe(|| m.apply(&op, &mut out)));
+            if !out.flags.is_empty() || r.is_err() || n + 1 == cycles {
+                let mut line = format!("cycle {:<6} {:<22} -> pressing={} value={:?}", n + 1, RibM::<C>::op_str(&op), m.rib.finger_is_pressing(), m.rib.value());
+                if let Err(e) = &r {
+                    line.push_str(&format!("  PANIC: {}", panic_msg(e)));
+                }
+                for f in &out.flags {
+                    line.push_str(&format!("\n        !! {} [{}] {}", f.prop, f.class, f.detail));
+                }
+                lines.push(line);
+            }
+            if r.is_err() {
+                return lines;
+            }
+        }
+        m.hist.clear();
+    }
+    lines
+}
+
+/// many presses and taps in a row (more than an 8-bit, at the smallest capacity more than a 16-bit, counter of presses
+/// or taps can hold): press, read both edges, lift, read, a tap one sample short of a press, lift - every poll and
+/// read judged by the model, values included when `with_value`
+fn many_presses_c<const C: usize>(_ctx: &Ctx, rep: &mut Report, cfg: RibCfg, cycles: usize, with_value: bool, props: &[&'static str]) {
+    let mut m = match RibM::<C>::new(cfg, vec![], with_value, false, u32::MAX) {
+        Ok(m) => m,
+        Err(_) => return,
+    };
+    m.edge_polls = true;
+    let l = m.m.l;
+    let b = cfg.boundary();
+    let mut flagged = false;
+    'cycles: for n in 0..cycles {
+        let ops = many_cycle_ops(l, b, n);
+        for op in ops.iter() {
+            let mut out = StepOut::new();
+            let r = std::panic::catch_unwind(std::panic::AssertUnwindSafe(|| m.apply(op, &mut out)));
+            let script = || vec![format!("# cycle {} of: press of {} samples alternating two levels, both edge reads, lift, reads, tap of {} samples, lift, reads (levels change from cycle to cycle)", n + 1, l + 1, l - 1), format!("manypresses:{}:{}", n + 1, with_value)];
+            if let Err(e) = r {
+                for p in props {
+                    rep.violation(Violation { prop: p, class: "panic".into(), detail: format!("the real code panicked in press cycle {}: {}", n + 1, panic_msg(&e)), machine: "ribbon", config: m.config(), ops: script() });
+                }
+                break 'cycles;
+            }
+            for f in out.flags {
+                if props.contains(&f.prop) && !flagged {
+                    rep.violation(Violation { prop: f.prop, class: format!("{}-after-many-presses", f.class), detail: format!("{} (press cycle {})", f.detail, n + 1), machine: "ribbon", config: m.config(), ops: script() });
+                    flagged = true;
+                }
+            }
+            if flagged {
+                break 'cycles;
+            }
+        }
+        // the history is only needed for forks: keep it short
+        m.hist.clear();
+    }
+    rep.count("press_cycles", cycles as u64);
+    rep.evaluations += cycles as u64;
+    rep.transitions += (cycles * (2 * l + 10)) as u64;
+    rep.subruns.push(json!({"engine": "E2-sweep", "what": "many press / tap cycles in a row", "fs": cfg.fs, "capacity": C, "cycles": cycles, "values_checked": with_value}));
 }
 
 /// one press held for more than 2^16 polls (counters of 8 / 16 bits inside a controller wrap in that time), samples
@@ -997,6 +1093,10 @@ pub fn c15(ctx: &Ctx) -> Report {
             with_capacity!(fs, long_press_c, ctx, &mut rep, cfg, false, p);
         }
         allowance_consistency(ctx, &mut rep, "C15");
+        for (fs, cycles) in [(100u32, 70_000usize), (1000, 300), (10000, 260)] {
+            let cfg = RibCfg { fs, softpot: 20e3, dropper: 820.0, pullup: 1e6 };
+            with_capacity!(fs, many_presses_c, ctx, &mut rep, cfg, cycles, false, p);
+        }
         for fs in if thorough { vec![10000u32, 22050, 48000, 96000, 192000] } else { vec![10000u32, 48000, 96000, 192000] } {
             let cfg = RibCfg { fs, softpot: 20e3, dropper: 820.0, pullup: 1e6 };
             with_capacity!(fs, scripted_presses_c, ctx, &mut rep, cfg, p);
@@ -1065,6 +1165,10 @@ pub fn c16(ctx: &Ctx) -> Report {
             with_capacity!(fs, long_press_c, ctx, &mut rep, cfg, true, p);
         }
         allowance_consistency(ctx, &mut rep, "C16");
+        for (fs, cycles) in [(100u32, 70_000usize), (1000, 300)] {
+            let cfg = RibCfg { fs, softpot: 20e3, dropper: 820.0, pullup: 1e6 };
+            with_capacity!(fs, many_presses_c, ctx, &mut rep, cfg, cycles, true, p);
+        }
         for (fs, stride) in if thorough { vec![(3500u32, 3usize), (4000, 3), (8000, 7), (22050, 40)] } else { vec![(3500u32, 9usize), (8000, 25)] } {
             let cfg = RibCfg { fs, softpot: 20e3, dropper: 820.0, pullup: 1e6 };
             with_capacity!(fs, piecewise_c, ctx, &mut rep, cfg, stride, p);
